@@ -181,8 +181,28 @@ def rule_release(prog):
     return res
 
 
+def rule_scan(prog):
+    """R-OVR-SCAN: override_keys looks at every key in the list: several overridden keys can be active at once (a multi
+    or an output chord puts them into the layout in one step), so the scan loop has no early exit."""
+    from rules.r_repeat import early_loop_exits
+    res = RuleResult("R-OVR-SCAN", "the override pass visits every active key", floor=1)
+    f = prog.fn(KO + "Overrides::override_keys")
+    res.fn(f)
+    loops = sum(1 for _, t in f.calls() if "desugar:ForLoop" in (t.get("mac") or []) and (callee_name(t) or "").endswith("::next"))
+    ex = early_loop_exits(f)
+    res.inst("override_keys/loops", loops=loops, early_exits=len(ex))
+    res.oblige(not ex)
+    if loops == 0:
+        res.viol("anchors", f.loc, "override_keys has no loop over the key list any more")
+    for (ll, xl) in ex[:2]:
+        res.viol("early-exit", "%s:%s" % (f.file, xl),
+                 "the scan over the active keys (loop at line %s) stops early: with two overridden keys active at once only the first is "
+                 "replaced" % ll)
+    return res
+
+
 def run_all(prog):
-    return [rule_scratch(prog), rule_mods(prog), rule_both(prog), rule_release(prog), rule_longest(prog)]
+    return [rule_scratch(prog), rule_mods(prog), rule_both(prog), rule_release(prog), rule_longest(prog), rule_scan(prog)]
 
 
 def rule_longest(prog):
